@@ -85,6 +85,25 @@ func errTests(errV ssa.Value) []errTest {
 			out = append(out, t)
 		}
 	}
+	if len(out) == 0 {
+		// "x, err := helper()" with the helper inlined: the error that is tested is the φ merging this error with
+		// the nil of the helper's other return sites; the nil edge of that test is a nil edge of this error too
+		for _, ref := range *errV.Referrers() {
+			ph, ok := ref.(*ssa.Phi)
+			if !ok || !isErrorType(ph.Type()) {
+				continue
+			}
+			others := true
+			for _, e := range ph.Edges {
+				if e != errV && !isNilConst(e) {
+					others = false
+				}
+			}
+			if others {
+				out = append(out, errTests(ph)...)
+			}
+		}
+	}
 	return out
 }
 
@@ -127,19 +146,21 @@ func (c *Ctx) errorChecked(call *ssa.Call) (bool, string) {
 	}
 	for _, t := range tests {
 		// all blocks reachable from nonNil (without passing through blocks dominated by nilSucc... they are disjoint) must end in return/jump to return
-		seen := map[*ssa.BasicBlock]bool{}
-		st := []*ssa.BasicBlock{t.nonNil}
+		type visit struct{ b, from *ssa.BasicBlock }
+		seen := map[visit]bool{}
+		st := []visit{{t.nonNil, t.blk}}
 		for len(st) > 0 {
-			b := st[len(st)-1]
+			v := st[len(st)-1]
+			b := v.b
 			st = st[:len(st)-1]
-			if seen[b] {
+			if seen[v] {
 				continue
 			}
-			seen[b] = true
+			seen[v] = true
 			last := b.Instrs[len(b.Instrs)-1]
 			switch x := last.(type) {
 			case *ssa.Return:
-				if ok, why := c.isErrorReturn(x, errV); !ok {
+				if ok, why := c.isErrorReturnFrom(x, errV, v.from); !ok {
 					return false, "on the failing edge a return at " + c.InstrPos(x) + " " + why
 				}
 			case *ssa.Panic:
@@ -149,7 +170,7 @@ func (c *Ctx) errorChecked(call *ssa.Call) (bool, string) {
 					if s == t.nilSucc && t.nilSucc != t.nonNil {
 						return false, "the failing edge rejoins the success path at " + c.InstrPos(last)
 					}
-					st = append(st, s)
+					st = append(st, visit{s, b})
 				}
 			}
 		}
@@ -173,6 +194,47 @@ func (c *Ctx) errFlowsToReturn(errV ssa.Value) bool {
 		}
 	}
 	return false
+}
+
+// isErrorReturnFrom: like isErrorReturn for the return block entered from block `from`: a result that is a φ of
+// the return's block stands for the value of that edge, and a value that is nil there (its own nil test
+// dominates, as for a named result tested by the loop that is left) counts as the zero value.
+func (c *Ctx) isErrorReturnFrom(ret *ssa.Return, errV ssa.Value, from *ssa.BasicBlock) (bool, string) {
+	if from == nil {
+		return c.isErrorReturn(ret, errV)
+	}
+	idx := -1
+	for i, p := range ret.Block().Preds {
+		if p == from {
+			idx = i
+		}
+	}
+	if idx < 0 {
+		return c.isErrorReturn(ret, errV)
+	}
+	for _, res := range ret.Results {
+		v := res
+		if ph, ok := v.(*ssa.Phi); ok && ph.Block() == ret.Block() {
+			v = ph.Edges[idx]
+		}
+		if isErrorType(v.Type()) {
+			if !c.nonNilError(v, errV, 0) {
+				return false, "may return a nil error"
+			}
+			continue
+		}
+		if k, ok := v.(*ssa.Const); ok {
+			if k.Value == nil || isZeroConst(k) {
+				continue
+			}
+			return false, "returns a non-zero value together with the error"
+		}
+		if pointerLike(v.Type()) && c.knownNilAt(v, from, 0) != "" {
+			continue
+		}
+		return false, "returns a value together with the error"
+	}
+	return true, ""
 }
 
 // isErrorReturn: ret returns a provably non-nil error derived from errV (or freshly made) and zero other values.
